@@ -602,7 +602,14 @@ class FunctionAnalysis:
             t = self.p.resolve(self.m, iter_node.func, self._locals(env))
             if t == "builtins.enumerate" and iter_node.args:
                 inner = self.eval(iter_node.args[0], env, quiet=True)
-                return container("tuple", join(SCALAR, elem_of(inner)))
+                return replace(container("tuple", join(SCALAR, elem_of(inner))), items=(SCALAR, elem_of(inner)))
+            if t in ("builtins.zip", "itertools.zip_longest", "itertools.product") and iter_node.args \
+                    and not any(isinstance(a, ast.Starred) for a in iter_node.args):
+                # position k of every yielded tuple comes from the k-th sequence only
+                parts = tuple(elem_of(self.eval(a, env, quiet=True)) for a in iter_node.args)
+                if t == "itertools.zip_longest":
+                    parts = tuple(join(x, AV(kind="none")) for x in parts)
+                return replace(container("tuple", joins(list(parts))), items=parts)
             if t in ("builtins.zip", "itertools.zip_longest", "itertools.product"):
                 return container("tuple", joins([elem_of(self.eval(a, env, quiet=True)) for a in iter_node.args]))
             if t == "builtins.range":
